@@ -272,8 +272,108 @@ func c03History(t *testing.T, rep *vfReport, r *vfRng, nOps int) (ops, impl []st
 	return e.ops, e.impl
 }
 
+// c03BlockedCheckpoints is a directed history for "a restart that rebuilds from the snapshot
+// store and log": the table spans several pages; two consecutive snapshots are each blocked
+// from truncating the WAL by a read transaction parked at its end (the second reader starts
+// before the first ends, so SQLite keeps appending to the same WAL); then an acknowledged write
+// to the FIRST leaf page is followed only by writes to the LAST one, one more snapshot, and a
+// restart forced to rebuild. Whatever the snapshot store holds of the WAL segments (C06's
+// subject), the rebuilt table must be the acknowledged one.
+func c03BlockedCheckpoints(t *testing.T, rep *vfReport, r *vfRng) (ops, impl []string) {
+	e := ssmNewEnv(t, rep, r, "C03", false)
+	defer e.cleanup()
+	rows := ssmRef{}
+	n := 600 + r.Intn(200)
+	for k := 1; k <= n; k++ {
+		rows[k] = 1<<40 + r.Intn(1<<30)
+	}
+	e.load(rows, true)
+	e.snapshot(0) // the full snapshot
+	walSize := func() int64 {
+		st, err := os.Stat(e.s.walPath)
+		if err != nil {
+			return 0
+		}
+		return st.Size()
+	}
+	hi := func() []ssmStmt { return []ssmStmt{{"p", n - r.Intn(20), 1<<40 + r.Intn(1<<30)}} }
+	for i := 0; i < 4+r.Intn(4); i++ {
+		e.exec(false, hi())
+	}
+	e.park()
+	e.snapshot(0)
+	blocked := 0
+	if walSize() > 0 {
+		blocked++
+	}
+	for i := 0; i < 2+r.Intn(3); i++ {
+		e.exec(false, hi())
+	}
+	e.park()
+	e.unpark(1)
+	e.snapshot(0)
+	if walSize() > 0 {
+		blocked++
+	}
+	// the acknowledged write to the first leaf page, then many to the last one only
+	e.exec(false, []ssmStmt{{"p", 1 + r.Intn(20), 7}})
+	for i := 0; i < 15+r.Intn(15); i++ {
+		e.exec(false, hi())
+	}
+	e.unpark(-1)
+	e.snapshot(0)
+	e.dump("table-wrong-before-restart")
+	rep.Count(fmt.Sprintf("directed-blocked-checkpoints:snapshots-with-wal-left=%d", blocked))
+	if blocked < 2 {
+		rep.Note("directed history: the parked readers did not keep the WAL from being truncated twice")
+	}
+	e.closeStore()
+	if err := e.reopen(true); err != nil {
+		rep.Fail("reopen-failed", fmt.Sprintf("history %v: %v", c03Short(e.hist), err), nil)
+	} else if got, w := ssmQueryDump(e.s), e.want.String(); got != w {
+		e.emit("dump", got)
+		rep.Fail("rebuild-after-blocked-checkpoints-loses-acknowledged-write",
+			fmt.Sprintf("history %v: after a restart that rebuilds from the snapshot store and log, %s", c03Short(e.hist), c03Diff(e.want, got)),
+			map[string]interface{}{"history": c03Short(e.hist)})
+	} else {
+		e.emit("dump", got)
+	}
+	rep.Case("directed:blocked-checkpoints "+strings.Join(c03Short(e.hist), " "), true)
+	return e.ops, e.impl
+}
+
+// c03Short abbreviates the long row lists of the directed history.
+func c03Short(h []string) []string {
+	out := make([]string, len(h))
+	for i, s := range h {
+		if len(s) > 60 {
+			s = s[:60] + "…"
+		}
+		out[i] = s
+	}
+	return out
+}
+
+func c03Diff(want ssmRef, got string) string {
+	var d []string
+	have := map[string]bool{}
+	for _, kv := range strings.Split(got, ";") {
+		have[kv] = true
+	}
+	for k, v := range want {
+		if kv := fmt.Sprintf("%d=%d", k, v); !have[kv] {
+			d = append(d, "acknowledged "+kv+" is missing")
+		}
+	}
+	sort.Strings(d)
+	if len(d) > 5 {
+		d = append(d[:5], fmt.Sprintf("… (%d rows differ)", len(d)))
+	}
+	return strings.Join(d, ", ")
+}
+
 func TestVerifC03(t *testing.T) {
-	rep := vfNewReport("C03", "crash images of real single-node stores: generated histories of write requests (incl. non-idempotent updates), loads, raft-driven snapshots with/without log truncation, step-by-step snapshots (checkpoint / persist / install / fingerprint) and clean restarts; at generated points the data directory is copied as a kill -9 would leave it and a new store is opened on the copy; non-trivial = at least one crash image; distinct by history text")
+	rep := vfNewReport("C03", "crash images of real single-node stores: generated histories of write requests (incl. non-idempotent updates), loads, raft-driven snapshots with/without log truncation, step-by-step snapshots (checkpoint / persist / install / fingerprint) and clean restarts, plus one directed history over a multi-page table (two consecutive snapshots whose WAL truncation is blocked by parked read transactions, a write to the first leaf page followed only by writes to the last, snapshot, restart forced to rebuild); at generated points the data directory is copied as a kill -9 would leave it and a new store is opened on the copy; non-trivial = at least one crash image; distinct by history text")
 	defer rep.Write()
 	r := ssmRng(3)
 	n := vfScale(3, 40)
@@ -283,6 +383,9 @@ func TestVerifC03(t *testing.T) {
 		allOps = append(allOps, ops)
 		allImpl = append(allImpl, impl)
 	}
+	dops, dimpl := c03BlockedCheckpoints(t, rep, r)
+	allOps = append(allOps, dops)
+	allImpl = append(allImpl, dimpl)
 	rep.vfCompareSegments("storesm", allOps, allImpl)
 }
 
